@@ -30,24 +30,24 @@ type Sample struct {
 
 // HarnessResult aggregates the exploration of one harness.
 type HarnessResult struct {
-	Spec          HarnessSpec
-	Paths         int
-	Completed     int
-	Infeasible    int
-	Inconclusive  []string
-	Violations    []Violation
-	Covers        map[string]int
-	Samples       []Sample
-	Stats         Stats
-	Solver        SolverStats
-	Funcs         map[string]int
-	Intrinsics    map[string]int
-	InitProblems  []string
-	WallS         float64
-	Error         string
-	EndKinds      map[string]int
-	TermCount     int
-	SolverWhat    map[string]int
+	Spec         HarnessSpec
+	Paths        int
+	Completed    int
+	Infeasible   int
+	Inconclusive []string
+	Violations   []Violation
+	Covers       map[string]int
+	Samples      []Sample
+	Stats        Stats
+	Solver       SolverStats
+	Funcs        map[string]int
+	Intrinsics   map[string]int
+	InitProblems []string
+	WallS        float64
+	Error        string
+	EndKinds     map[string]int
+	TermCount    int
+	SolverWhat   map[string]int
 	// FirstViolation is the time of the first violation that is not
 	// attributed to a known finding; exploration of the harness stops
 	// ViolationGrace later (a broken tree must not make the check run away).
